@@ -30,6 +30,8 @@ pub enum Prior {
     RawBefore(Vec<Vec<u8>>),
     /// packet obtained by parsing bytes that already carry the option
     Parsed(Vec<u8>),
+    /// the value about to be set is already there, raw, with a leading zero
+    RawSamePadded,
 }
 
 #[derive(Clone, Debug, Serialize, Deserialize, Hash)]
@@ -151,6 +153,11 @@ pub fn check_set(_ctx: &Ctx, c: &SetCase, acc: &mut Acc) -> Result<(), Fail> {
                     p.add_option(CoapOption::ContentFormat, b.clone());
                 }
             }
+            if let Prior::RawSamePadded = &c.prior {
+                let mut b = min_uint(id as u64);
+                b.insert(0, 0);
+                p.add_option(CoapOption::ContentFormat, b);
+            }
             p.set_content_format(cf);
             let got = p.get_content_format();
             ensure!(
@@ -187,6 +194,11 @@ pub fn check_set(_ctx: &Ctx, c: &SetCase, acc: &mut Acc) -> Result<(), Fail> {
                 for b in v {
                     req.message.add_option(CoapOption::Observe, b.clone());
                 }
+            }
+            if let Prior::RawSamePadded = &c.prior {
+                let mut b = min_uint(num as u64);
+                b.insert(0, 0);
+                req.message.add_option(CoapOption::Observe, b);
             }
             req.set_observe_flag(f);
             let got = req.get_observe_flag();
@@ -821,6 +833,7 @@ fn priors_for(kind: &str, n: usize) -> Vec<Prior> {
             v.push(Prior::RawBefore(vec![vec![1, 2, 3, 4, 5]]));
             v.push(Prior::RawBefore(vec![vec![0x27, 0x10], vec![50]]));
             v.push(Prior::Parsed(vec![]));
+            v.push(Prior::RawSamePadded);
         }
         "method" => v.push(Prior::RawBefore(vec![vec![0x45]])),
         _ => {}
